@@ -120,6 +120,10 @@ func BuildPattern(cache *ChunkCache, patternCache map[string]*Pattern, fuzzy boo
 		if !caseSensitive {
 			asString = lowerString
 		}
+		if normalize {
+			// The matchers expect a normalized pattern
+			asString = string(algo.NormalizeRunes([]rune(asString)))
+		}
 	}
 
 	ptr := &Pattern{
